@@ -208,6 +208,12 @@ static long long execOp(World &w, const J &op, J &ev) {
     try {
         if (name == "New") { w.objs[o].reset(new c3d()); }
         else if (name == "Load") { w.objs.erase(o); w.objs[o].reset(new c3d(fullpath(op.at("path").s))); }
+        else if (name == "LoadBytes") {      // write the given bytes to a file and construct the object from it
+            std::string p = fullpath(op.at("path").s);
+            putFile(p, op.at("bytes"));
+            std::unique_ptr<c3d> fresh(new c3d(p));
+            w.objs[o] = std::move(fresh);
+        }
         else if (name == "Destroy") { w.objs.erase(o); o = -1; }
         else if (name == "Reset") { w.reset(); o = -1; }
         else if (name == "Save") {
